@@ -137,7 +137,10 @@ theorem sendClient_crash (c : Cfg) (τ : Core) (m : Msg) (a1 : τ.phase ≠ .cra
   unfold sendClient at a2 ⊢
   cases hp : pack c.I m with
   | none => simp
-  | some b => simp [hp] at a2; exact absurd a2 a1
+  | some b =>
+    cases hw : wireOf? c.tcp b with
+    | none => simp [hw]
+    | some w => simp [hp, hw] at a2; exact absurd a2 a1
 
 theorem handleResponse_crash (c : Cfg) (τ : Core) (k : Nat) (f : Flow) (m : Msg) (a1 : τ.phase ≠ .crashed)
     (a2 : (handleResponse c τ k f m).1.phase = .crashed) : Out.crash ∈ (handleResponse c τ k f m).2 := by
